@@ -76,45 +76,124 @@ class TimeLimit:
 # --------------------------------------------------------------------------- pools
 
 
-def _pool_init(env):
+def _worker_main(conn, env):
     os.environ.update(env)
-    sys.setrecursionlimit(10000)
-
-
-def _pool_call(job):
-    modname, fname, arg = job
     import importlib
 
-    mod = importlib.import_module(modname)
-    try:
-        return ("ok", getattr(mod, fname)(arg))
-    except BaseException as e:  # a worker must never die silently
-        return ("worker-exception", f"{type(e).__name__}: {e}\n{traceback.format_exc()}")
+    while True:
+        try:
+            job = conn.recv()
+        except EOFError:
+            return
+        if job is None:
+            return
+        idx, modname, fname, arg = job
+        try:
+            mod = importlib.import_module(modname)
+            res = ("ok", getattr(mod, fname)(arg))
+        except BaseException as e:  # a worker must never die silently
+            res = ("worker-exception", f"{type(e).__name__}: {e}\n{traceback.format_exc()}")
+        try:
+            conn.send((idx, res))
+        except Exception as e:  # noqa: BLE001 - unpicklable result
+            conn.send((idx, ("worker-exception", f"result not transferable: {type(e).__name__}: {e}")))
 
 
-def run_pool(modname, fname, args, env=None, nproc=None, progress=None):
-    """Run modname.fname(arg) for every arg in fresh (spawned) long-lived workers; ordered results."""
+def run_pool(modname, fname, args, env=None, nproc=None, progress=None, task_timeout=3600.0):
+    """Run modname.fname(arg) for every arg in fresh (spawned) long-lived workers; ordered results.
+
+    A worker that dies (segfault in native code, os._exit) or exceeds task_timeout is reported as
+    ("worker-died" | "worker-timeout", description) for the task it held and is replaced.
+    """
+    from multiprocessing.connection import wait
+
     env = dict(env or {})
     env.setdefault("TENSORA_VERIF", "1")
     args = list(args)
-    nproc = min(nproc or NPROC, max(1, len(args)))
-    jobs = [(modname, fname, a) for a in args]
-    results = []
-    if nproc == 1 and os.environ.get("VERIF_INLINE") == "1":
-        _pool_init(env)
-        for j in jobs:
-            results.append(_pool_call(j))
+    n = len(args)
+    results = [None] * n
+    if n == 0:
         return results
+    nproc = min(nproc or NPROC, n)
     ctx = multiprocessing.get_context("spawn")
     old = {k: os.environ.get(k) for k in env}
     os.environ.update(env)
+    workers = {}  # conn -> [process, current idx or None, start time]
+    next_idx = 0
+    done = 0
+
+    def start_worker():
+        parent, child = ctx.Pipe()
+        p = ctx.Process(target=_worker_main, args=(child, env), daemon=True)
+        p.start()
+        child.close()
+        workers[parent] = [p, None, 0.0]
+        return parent
+
+    def give(conn):
+        nonlocal next_idx
+        if next_idx < n:
+            workers[conn][1] = next_idx
+            workers[conn][2] = time.time()
+            conn.send((next_idx, modname, fname, args[next_idx]))
+            next_idx += 1
+        else:
+            workers[conn][1] = None
+            try:
+                conn.send(None)
+            except Exception:  # noqa: BLE001
+                pass
+
     try:
-        with ctx.Pool(nproc, initializer=_pool_init, initargs=(env,)) as pool:
-            for n, r in enumerate(pool.imap(_pool_call, jobs, chunksize=1)):
-                results.append(r)
-                if progress and (n + 1) % progress == 0:
-                    print(f"  .. {n + 1}/{len(jobs)} work units", flush=True)
+        for _ in range(nproc):
+            give(start_worker())
+        while done < n:
+            busy = [c for c, w in workers.items() if w[1] is not None]
+            ready = wait(busy, timeout=5.0)
+            now = time.time()
+            for conn in ready:
+                w = workers[conn]
+                try:
+                    idx, res = conn.recv()
+                except (EOFError, OSError):
+                    idx = w[1]
+                    w[0].join(timeout=5)
+                    res = ("worker-died", f"worker process died (exit code {w[0].exitcode}) while running "
+                                          f"{modname}.{fname} on work unit {idx}")
+                    del workers[conn]
+                    conn.close()
+                    results[idx] = res
+                    done += 1
+                    give(start_worker())
+                    continue
+                results[idx] = res
+                done += 1
+                if progress and done % progress == 0:
+                    print(f"  .. {done}/{n} work units", flush=True)
+                give(conn)
+            for conn in list(workers):
+                w = workers[conn]
+                if w[1] is not None and now - w[2] > task_timeout:
+                    idx = w[1]
+                    w[0].kill()
+                    w[0].join(timeout=5)
+                    del workers[conn]
+                    conn.close()
+                    results[idx] = ("worker-timeout", f"work unit {idx} of {modname}.{fname} exceeded "
+                                                       f"{task_timeout}s and was killed")
+                    done += 1
+                    give(start_worker())
     finally:
+        for conn, w in list(workers.items()):
+            try:
+                conn.send(None)
+            except Exception:  # noqa: BLE001
+                pass
+        for conn, w in list(workers.items()):
+            w[0].join(timeout=2)
+            if w[0].is_alive():
+                w[0].kill()
+            conn.close()
         for k, v in old.items():
             if v is None:
                 os.environ.pop(k, None)
